@@ -131,11 +131,11 @@ type job struct {
 }
 
 type fileOutcome struct {
-	File      string  `json:"file"`
-	Expect    string  `json:"expected"` // fail | pass | fail(in-included-file)
-	InProc    verdict `json:"in_process"`
+	File      string   `json:"file"`
+	Expect    string   `json:"expected"` // fail | pass | fail(in-included-file)
+	InProc    verdict  `json:"in_process"`
 	Binary    *verdict `json:"binary,omitempty"`
-	FreshFail *bool   `json:"fresh_auditor_failed,omitempty"`
+	FreshFail *bool    `json:"fresh_auditor_failed,omitempty"`
 }
 
 type result struct {
@@ -473,7 +473,7 @@ func evaluate(j *job, a *inproc, bin string, scratch string) *result {
 					"script": script, "verdict": v,
 					"command": fmt.Sprintf("frugal -audit old/%s new/%s", bp.p.File(g).FileName(), np.File(g).FileName()),
 					"old":     readFiles(bp.oldDir, bp.p), "new": readFiles(res.newDir, np),
-					"style":   j.style.String(),
+					"style": j.style.String(),
 				}
 			}
 			res.vios = append(res.vios, vio{sig: sig, what: what, witness: w})
@@ -512,13 +512,20 @@ func runC18() int {
 	scratch := filepath.Join(ev.ScratchDir(), "c18")
 	os.MkdirAll(scratch, 0o755)
 	cfg := idl.CoreConfig()
+	workers := runtime.NumCPU()
+	if workers > 16 {
+		workers = 16
+	}
+	if workers < 2 {
+		workers = 2
+	}
 
 	// ---- base programs and job list: a pure function of (seed, tier) ----
-	var jobs []*job
-	var bases []*baseProg
-	setup := newInproc()
-	opSites := map[string]int{}
-	for i := 0; i < nProg+nRare; i++ {
+	// (every base program has its own PRNG stream, so the programs are set up in parallel)
+	setupOne := func(i int) (*baseProg, []*job, map[string]int) {
+		var jobs []*job
+		setup := newInproc()
+		opSites := map[string]int{}
 		rng := run.Rand(fmt.Sprintf("c18-prog-%d", i))
 		bp := &baseProg{ix: i, p: idl.Generate(rng, cfg), style: idl.RandomStyle(rng)}
 		if i%3 == 0 {
@@ -526,7 +533,7 @@ func runC18() int {
 		}
 		if err := validateProgram(bp.p); err != nil {
 			run.Inconclusive(fmt.Sprintf("base program %d rejected by the check's validity net: %v", i, err))
-			continue
+			return nil, nil, nil
 		}
 		bp.oldDir = filepath.Join(scratch, fmt.Sprintf("p%d", i), "old")
 		root, _ := idl.WriteProgram(bp.p, bp.oldDir, bp.style)
@@ -537,13 +544,12 @@ func runC18() int {
 			root, _ = idl.WriteProgram(bp.p, bp.oldDir, bp.style)
 			if v := setup.audit(root, root); v.Bad != "" {
 				run.Inconclusive(fmt.Sprintf("base program %d does not parse: %s", i, v.Bad))
-				continue
+				return nil, nil, nil
 			}
 		}
 		bp.edits = enumerate(bp.p, rng)
-		bases = append(bases, bp)
 		add := func(kind string, edits []int, st idl.Style) {
-			jobs = append(jobs, &job{id: len(jobs), base: bp, kind: kind, edits: edits, style: st})
+			jobs = append(jobs, &job{base: bp, kind: kind, edits: edits, style: st})
 		}
 		if i >= nProg {
 			// extra base programs for the operators that have only a handful
@@ -554,7 +560,7 @@ func runC18() int {
 					opSites[e.Op]++
 				}
 			}
-			continue
+			return bp, jobs, opSites
 		}
 		add("identical", nil, bp.style)
 		for k := 0; k < nRestyle; k++ {
@@ -666,6 +672,44 @@ func runC18() int {
 				add(kind, chosen, bp.style)
 			}
 		}
+		return bp, jobs, opSites
+	}
+	type setupResult struct {
+		bp    *baseProg
+		jobs  []*job
+		sites map[string]int
+	}
+	setups := make([]setupResult, nProg+nRare)
+	{
+		var wg sync.WaitGroup
+		sem := make(chan struct{}, workers)
+		for i := range setups {
+			wg.Add(1)
+			sem <- struct{}{}
+			go func(i int) {
+				defer wg.Done()
+				defer func() { <-sem }()
+				bp, js, sites := setupOne(i)
+				setups[i] = setupResult{bp, js, sites}
+			}(i)
+		}
+		wg.Wait()
+	}
+	var jobs []*job
+	var bases []*baseProg
+	opSites := map[string]int{}
+	for _, su := range setups {
+		if su.bp == nil {
+			continue
+		}
+		bases = append(bases, su.bp)
+		for _, j := range su.jobs {
+			j.id = len(jobs)
+			jobs = append(jobs, j)
+		}
+		for op, n := range su.sites {
+			opSites[op] += n
+		}
 	}
 	for i, j := range jobs {
 		j.binary = binEvery == 1 || i%binEvery == 0 || j.kind == "identical"
@@ -673,13 +717,6 @@ func runC18() int {
 
 	// ---- evaluate in parallel, report in job order ----
 	results := make([]*result, len(jobs))
-	workers := runtime.NumCPU()
-	if workers > 16 {
-		workers = 16
-	}
-	if workers < 2 {
-		workers = 2
-	}
 	var wg sync.WaitGroup
 	ch := make(chan *job, 64)
 	for w := 0; w < workers; w++ {
